@@ -116,7 +116,7 @@ def run_job(job, workdir, gen_dir):
             res["reason"] = "goto-instrument failed: " + (err.decode(errors="replace") + out.decode(errors="replace"))[-1500:]
             return res
         src_gb = b
-    cmd3 = ["cbmc", src_gb] + ([] if job.no_base_flags else BASE_FLAGS) + job.flags + ["--no-malloc-may-fail", "--json-ui", "--trace"]
+    cmd3 = ["cbmc", src_gb, "--no-standard-checks"] + ([] if job.no_base_flags else BASE_FLAGS) + job.flags + ["--no-malloc-may-fail", "--json-ui", "--trace"]
     if job.unwind is not None:
         cmd3 += ["--unwind", str(job.unwind), "--unwinding-assertions"]
     if job.object_bits:
